@@ -91,6 +91,8 @@ let handle_case kind c =
       let url = next_bytes c in
       let transport = next c in
       let declared = next_z c in
+      let framing_ok = next_bool c in
+      let wire = next_bytes c in
       let bprefix = next c in
       let bpad = next_int c in
       let bpadn = next_int c in
@@ -104,8 +106,8 @@ let handle_case kind c =
       let semver = (fun _ -> semver_ans) in
       let marshal = (fun _ -> marshalled) in
       let describe () =
-        Printf.sprintf "request %d (%s, declared Content-Length %s): %s %s body=%S + %d x byte %d + %d bytes (size_ok=%b, decodes=%b) -> %s; bucket before {%s} after {%s}"
-          i transport (dec_of_z declared) (string_of_bytes meth) (string_of_bytes url)
+        Printf.sprintf "request %d (%s%s, declared Content-Length %s): %s %s body=%S + %d x byte %d + %d bytes (size_ok=%b, decodes=%b) -> %s; bucket before {%s} after {%s}"
+          i transport (if framing_ok then "" else if wire = [] then ", body reader fails with a transport error" else Printf.sprintf ", ill-framed chunked message %S" (string_of_bytes wire)) (dec_of_z declared) (string_of_bytes meth) (string_of_bytes url)
           (clip (string_of_bytes (bytes_of_tok bprefix))) bpadn bpad ((String.length bsuffix - 1) / 2)
           size_ok (decoded <> None) status (clip (show_fs !before)) (clip (show_fs after)) in
       (* why the model calls a decoded report's contents unapproved (for the replay text) *)
@@ -129,13 +131,18 @@ let handle_case kind c =
                 else bad_c @ bad_s) r.r_programs in
           if items = [] then "" else " [not approved: " ^ String.concat "; " items ^ "]" in
       (* model vs implementation *)
-      let (mst, mfs) = handle_http semver marshal cfg meth declared size_ok decoded !before in
+      let (mst, mfs) = handle_wire semver marshal cfg meth declared framing_ok size_ok decoded !before in
       if show_status mst <> status then
         diff (Printf.sprintf "req%d-status" i) ~model:(show_status mst) ~impl:(status ^ " | " ^ describe ());
       if mfs <> after then
         diff (Printf.sprintf "req%d-bucket" i) ~model:(clip (show_fs mfs)) ~impl:(clip (show_fs after) ^ " | " ^ describe ());
       (* the property on the real observations *)
-      let valid = valid_request semver cfg meth size_ok decoded in
+      (* what the property expects (expected_wire): an ill-framed body is no report *)
+      let valid = framing_ok && valid_request semver cfg meth size_ok decoded in
+      let (est, _) = expected_wire semver marshal cfg meth framing_ok size_ok decoded !before in
+      if not framing_ok && status <> show_status est then
+        prop (if status = "5xx" then "framing-error-5xx" else "framing-error-4xx")
+          (Printf.sprintf "a body whose framing cannot be decoded must be refused with 4xx: %s" (describe ()));
       let changed = (after <> !before) in
       if not outside_ok then prop "outside-bucket" (describe ());
       if valid then begin
